@@ -1829,7 +1829,15 @@ class Isometry(projective.Transformation, HyperbolicObject):
         # primary sort key is whether or not we're in the plane,
         # secondary is the eigenvalue modulus
         if sort_eigvals:
-            sort_order = np.stack([np.abs(eigvals),
+            # eigenvalues which agree up to roundoff (the eigenvalue 1
+            # of an elliptic isometry with a fixed subspace) count as
+            # equal; among their eigenvectors, prefer the one on which
+            # the Minkowski form is smallest, so that a timelike
+            # vector wins over a lightlike one
+            moduli = (np.round(np.abs(eigvals) / CLUSTER_THRESHOLD)
+                      * CLUSTER_THRESHOLD)
+            sort_order = np.stack([-1 * np.real(norms),
+                                   moduli,
                                    -1 * np.abs(np.imag(eigvals)),
                                    in_plane])
             sort_indices = np.lexsort(sort_order, axis=-1)
